@@ -68,7 +68,7 @@ def showOut (ids : List Nat) (o : Out) : String :=
   s!"wire=[{w}] client=[{c}] err={showBool o.hkErr}"
 
 def showSys (s : S) : String :=
-  s!"sys[last={showOptNat s.lastSelected} ck={showBool s.clientKnown} afa={showOptNat s.allFailedAt} fail={showList s.failNext}] " ++
+  s!"sys[last={showOptNat s.lastSelected} ck={showBool s.clientKnown} afa={showOptNat s.allFailedAt} fail={showList s.failNext} fb={showList s.failBind}] " ++
   showReg s.reg ++ " | " ++ " | ".intercalate (s.links.map showLink)
 
 def idFromSeed (seed : Nat) (salt : Nat) : List UInt8 :=
@@ -168,6 +168,13 @@ def step (s : S) (toks : List String) : S × String :=
       if s.failNext.contains cid || !(s.links.any fun (l : L) => l.core.connId == cid) then bad
       else fin (Sys.step s (.failNext cid))
     | none => bad
+  | ["failbind", cid] =>
+    -- the uplink binder of that link refuses once: its next `reconnect_uplink` fails
+    match cid.toNat? with
+    | some cid =>
+      if s.failBind.contains cid || !(s.links.any fun (l : L) => l.core.connId == cid) then bad
+      else fin (Sys.step s (.failBind cid))
+    | none => bad
   | "setlink" :: i :: rest =>
     match i.toNat? with
     | some i =>
@@ -183,5 +190,22 @@ def step (s : S) (toks : List String) : S × String :=
     | some seq, some now => (s, "get=" ++ showOptNat (s.trk.get seq now))
     | _, _ => bad
   | _ => bad
+
+/-- Driver state: the model state plus "the rest of this case is not modelled". The harness op `deadsock`
+(a socket that cannot send at all: every control send on it fails) has no counterpart in `Sys.step`,
+where only batch sends can fail (`failNext`) and socket re-creation can be refused (`failBind`); from
+that op to the end of the case the real code is still run and monitored, and both sides print the
+constant line `unmodelled`. -/
+structure DS where
+  s : S
+  unmodelled : Bool := false
+
+def emptyD : DS := { s := empty }
+
+def stepD (d : DS) (toks : List String) : DS × String :=
+  if d.unmodelled then (d, "unmodelled") else
+  match toks with
+  | ["deadsock", _, _] => ({ d with unmodelled := true }, "unmodelled")
+  | _ => let (s', o) := step d.s toks; ({ d with s := s' }, o)
 
 end Srtla.Drv.SysDrv
